@@ -54,7 +54,7 @@ func (m *MethodEvaluator) isNotArgT(
 		return true
 	}
 
-	if t.IsTargetIdentifier("[") && methodT.IsEmptyDefineArgs() {
+	if t.IsTargetIdentifier("[") && methodT.IsEmptyDefineArgs() && !m.isParentheses {
 		m.parser.Unget()
 		return true
 	}
@@ -394,6 +394,12 @@ func collectArgs(
 			}
 
 			continue
+		}
+
+		// foo([1]): an argument that starts with a bracket is an array literal,
+		// not an index into what was evaluated before the argument list
+		if nextT.IsTargetIdentifier("[") {
+			m.parser.SetLastEvaluatedT(base.MakeNil())
 		}
 
 		// x.abc.def.ghi
